@@ -177,18 +177,26 @@ class Stream:
         return hi + 1 if hi < len(self.toks) and self.toks[hi].type == tokenize.COMMENT else hi
 
     def ext_pars(self, lo, hi):
-        """Extent over directly enclosing balanced *grouping* parentheses.  An opening parenthesis that directly follows
-        an identifier, a literal or a closing bracket is a call / class / def parenthesis and never a grouping one."""
+        """Extent over directly enclosing balanced *grouping* parentheses (comments and line breaks inside them
+        included).  An opening parenthesis that directly follows an identifier, a literal or a closing bracket is a
+        call / class / def parenthesis and never a grouping one."""
         n = len(self.toks)
-        while lo > 1 and hi < n and self.toks[lo - 2].string == '(' and self.toks[hi].string == ')' and \
-                self.toks[lo - 2].type == tokenize.OP:
-            if lo > 2:
-                b = self.toks[lo - 3]
-                if (b.type == tokenize.NAME and not keyword.iskeyword(b.string)) or b.string in (')', ']', '}') or \
-                        b.type in (tokenize.STRING, tokenize.NUMBER, getattr(tokenize, 'FSTRING_END', -1)):
-                    break
-            lo, hi = lo - 1, hi + 1
-        return lo, hi
+        skip = (tokenize.NL, tokenize.COMMENT)
+        while True:
+            a, b = lo - 1, hi + 1  # 1-based candidates
+            while a >= 1 and self.toks[a - 1].type in skip:
+                a -= 1
+            while b <= n and self.toks[b - 1].type in skip:
+                b += 1
+            if a < 1 or b > n or self.toks[a - 1].string != '(' or self.toks[b - 1].string != ')' or \
+                    self.toks[a - 1].type != tokenize.OP:
+                return lo, hi
+            if a > 1:
+                p = self.toks[a - 2]
+                if (p.type == tokenize.NAME and not keyword.iskeyword(p.string)) or p.string in (')', ']', '}') or \
+                        p.type in (tokenize.STRING, tokenize.NUMBER, getattr(tokenize, 'FSTRING_END', -1)):
+                    return lo, hi
+            lo, hi = a, b
 
     def ext_stmt(self, hi):
         """Extent of a statement through its optional line comment and NEWLINE (unchanged when `;` follows)."""
